@@ -1,5 +1,6 @@
 """C09 — a failed operation leaves no trace."""
 import seqlib
+import fscklib
 import vlib
 
 MODULE = "GoNfsd.Props.C09"
@@ -14,6 +15,16 @@ def run(ctx):
             seqlib.analyse(ctx, lines, tr, ok_drv, "C09")
             fails = [l for l in lines if " => " in l and l.rsplit(" => ", 1)[1].split()[0] not in ("0",)]
             ctx.cov["failing_operations_checked"] = len(fails)
+    if ok_go:
+        # resource exhaustion: every allocation path at the exact boundary of a full disk (harness reclaim)
+        rl = fscklib.run_images(ctx, ok_drv, "reclaim", ["reclaim", "-seed", str(ctx.seed)] + (["-hists", "9", "-rounds", "3"] if ctx.tier == "thorough" else ["-hists", "3", "-rounds", "1"]), set(), False)
+        fscklib.oracle_lines(ctx, rl, "C09", "harness reclaim -seed %d (full-disk scenarios)" % ctx.seed)
+        for l in rl or []:
+            if l.startswith("# HIST"):
+                for kv in l.split()[2:]:
+                    k, v = kv.split("=")
+                    if k.endswith(":nospc"):
+                        ctx.cov["nospc_replies"] = ctx.cov.get("nospc_replies", 0) + int(v)
     vlib.finish(
         ctx, "proof",
         "theorem error_identity: in the reference model a non-OK reply returns the state unchanged, so any continuation behaves as if the request had "
@@ -21,6 +32,6 @@ def run(ctx):
         "content digests) and both allocators' free counts are compared",
         "as C02 with -c09: after every operation the tree is dumped through the API and the free counts recorded; a failing operation must leave both "
         "unchanged; later operations keep being compared with the model (whose state did not change)",
-        ["nearly-full disks and inode exhaustion are not yet generated (the model does not predict NOSPC); failures exercised: stale/malformed handles, "
+        ["the reference model does not predict NOSPC: full-disk failures (WRITE needing an index block, MKDIR, SYMLINK with 0/1/2 free blocks) are exercised by harness reclaim with the implementation-side oracles only; other failures exercised: stale/malformed handles, "
          "name too long, existing/missing names, wrong kinds, non-empty directories, size/offset limits, oversized transfers, count/data mismatch"],
         pending=["abort_restores on the transaction/cache model (M8)"])
